@@ -1688,9 +1688,9 @@ impl<'comments> Formatter<'comments> {
                         .group()
                 }
 
-                _ => self.expr(fun, false).append(
-                    wrap_args(args.iter().map(|a| (self.call_arg(a, false), false))).group(),
-                ),
+                // Same layout as any other call, in particular `Foo { i: _, b: True }` for a
+                // record constructor with labelled arguments.
+                _ => self.call(fun, args),
             },
 
             // The body of a capture being not a fn shouldn't be possible...
